@@ -261,15 +261,15 @@ arm_batch!(b2b, aes128_arm_batch22_enc_b2b, crate::Aes128, 16, 21, 22, false);
 arm_batch!(ipc, aes128_arm_batch22_dec_ip, crate::Aes128, 16, 21, 22, true);
 //@ harness name=aes128_arm_batch22_dec_b2b prop=C04,C20 tier=thorough bits=2944 stub=1 est=360 variants=aes:armv8 desc="Aes128 (ARMv8 arm) decrypt_blocks_b2b on 22 blocks equals 22 single-block calls; input unchanged"
 arm_batch!(b2b, aes128_arm_batch22_dec_b2b, crate::Aes128, 16, 21, 22, true);
-//@ harness name=aes128_arm_batch3_enc_ip prop=C04,C20 tier=quick bits=520 stub=1 est=100 variants=aes:armv8 desc="Aes128 (ARMv8 arm): 3 blocks (fewer than the parallel width: tail path only) at a symbolic buffer offset 0..15: encrypt_blocks in place equals three single-block calls; guards unchanged; all keys and contents"
+//@ harness name=aes128_arm_batch3_enc_ip prop=C04,C20 tier=quick bits=520 stub=1 variants=aes:armv8 est=85 desc="Aes128 (ARMv8 arm): 3 blocks (fewer than the parallel width: tail path only) at a symbolic buffer offset 0..15: encrypt_blocks in place equals three single-block calls; guards unchanged; all keys and contents"
 arm_batch!(ip, aes128_arm_batch3_enc_ip, crate::Aes128, 16, 21, 3, false, off_sym);
-//@ harness name=aes128_arm_batch3_enc_b2b prop=C04,C20 tier=quick bits=512 stub=1 est=40 variants=aes:armv8 desc="Aes128 (ARMv8 arm): encrypt_blocks_b2b on 3 blocks equals three single-block calls; input unchanged"
+//@ harness name=aes128_arm_batch3_enc_b2b prop=C04,C20 tier=quick bits=512 stub=1 variants=aes:armv8 est=45 desc="Aes128 (ARMv8 arm): encrypt_blocks_b2b on 3 blocks equals three single-block calls; input unchanged"
 arm_batch!(b2b, aes128_arm_batch3_enc_b2b, crate::Aes128, 16, 21, 3, false);
-//@ harness name=aes128_arm_batch3_dec_ip prop=C04,C20 tier=quick bits=520 stub=1 est=100 variants=aes:armv8 desc="as aes128_arm_batch3_enc_ip, decrypt"
+//@ harness name=aes128_arm_batch3_dec_ip prop=C04,C20 tier=quick bits=520 stub=1 variants=aes:armv8 est=80 desc="as aes128_arm_batch3_enc_ip, decrypt"
 arm_batch!(ip, aes128_arm_batch3_dec_ip, crate::Aes128, 16, 21, 3, true, off_sym);
-//@ harness name=aes128_arm_batch3_dec_b2b prop=C04,C20 tier=quick bits=512 stub=1 est=40 variants=aes:armv8 desc="as aes128_arm_batch3_enc_b2b, decrypt"
+//@ harness name=aes128_arm_batch3_dec_b2b prop=C04,C20 tier=quick bits=512 stub=1 variants=aes:armv8 est=45 desc="as aes128_arm_batch3_enc_b2b, decrypt"
 arm_batch!(b2b, aes128_arm_batch3_dec_b2b, crate::Aes128, 16, 21, 3, true);
-//@ harness name=aes128_arm_batch21_enc_ip prop=C04 tier=quick bits=2816 stub=1 est=280 variants=aes:armv8 desc="as aes128_arm_batch22_enc_ip, n = 21 (exactly the parallel width, empty tail)"
+//@ harness name=aes128_arm_batch21_enc_ip prop=C04 tier=thorough bits=2816 stub=1 variants=aes:armv8 est=340 need=12 desc="as aes128_arm_batch22_enc_ip, n = 21 (exactly the parallel width, empty tail)"
 arm_batch!(ipc, aes128_arm_batch21_enc_ip, crate::Aes128, 16, 21, 21, false);
 //@ harness name=aes192_arm_batch20_enc_ip prop=C04,C20 tier=thorough bits=2752 stub=1 est=320 variants=aes:armv8 desc="Aes192 (ARMv8 arm, ParBlocksSize = 19): encrypt_blocks in place on 20 blocks (19-wide batch incl. the KEYS >= 13 rounds + tail of 1) at the odd offset 7 of a guarded frame equals 20 single-block calls"
 arm_batch!(ipc, aes192_arm_batch20_enc_ip, crate::Aes192, 24, 19, 20, false);
